@@ -45,7 +45,7 @@ class SequenceOfOrSetOfPayloadDecoder(object):
         asn1Value = asn1Spec.clone()
 
         for pyValue in pyObject:
-            asn1Value.append(decodeFun(pyValue, asn1Spec.componentType), **options)
+            asn1Value.append(decodeFun(pyValue, asn1Spec.componentType, **options))
 
         return asn1Value
 
